@@ -69,8 +69,19 @@ def validate_reductions(ctx, recs, stride):
     ctx.notes["reduction_traces_validated"] = ctx.notes.get("reduction_traces_validated", 0) + len(traces)
 
 
+def chains(ctx, constants):
+    """long runs: K1 x o1 then K2 x o2, left- and right-nested (MC_C05_chain) -- associativity at every length"""
+    res = tlc.run("MC_C05_chain", constants=constants, keep_lines=lambda r: r.get("k") == "case", timeout=7200)
+    ctx.add_tlc(res)
+    if res.violation:
+        ctx.violation({"kind": "model", "inv": res.violation, "gen": "chain"}, {"tlc": res.raw_tail[-2000:]})
+    check_records(ctx, res.records, "chain")
+    ctx.notes["chain_cases"] = len(res.records)
+
+
 def run(ctx):
     ctx.rule = ("every expression tree with <= MaxOps operator/bracket nodes (derivation machine MC_C05); "
+                "plus left- and right-nested runs of up to 40 (quick) / 140 (thorough) operators (MC_C05_chain); "
                 "each is rendered min/full/bws/fullbws by the spec printer and parsed by the real parser; "
                 "non-trivial = distinct tree with >= 2 operator nodes")
     ctx.trusted = ["spec/OData.tla precedence table + printers (checked against the spec parser by TLC)",
@@ -84,6 +95,7 @@ def run(ctx):
             ctx.violation({"kind": "model", "inv": res.violation}, {"tlc": res.raw_tail[-2000:]})
         check_records(ctx, res.records, "wide2")
         validate_reductions(ctx, res.records, 4)
+        chains(ctx, {})
         ctx.exhaustive = True
     else:
         res = tlc.run("MC_C05", constants={"MaxOps": 2, "Wide": "TRUE"}, keep_lines=keep)
@@ -95,6 +107,7 @@ def run(ctx):
         if res.violation:
             ctx.violation({"kind": "model", "inv": res.violation}, {"tlc": res.raw_tail[-2000:]})
         check_records(ctx, res.records, "narrow3")
+        chains(ctx, {"Lens1": "{1, 2, 16, 17, 18, 19, 33, 64, 100}", "Lens2": "{0, 1, 17, 18, 40}", "Mixed": "TRUE"})
         ctx.exhaustive = True
 
 
